@@ -514,3 +514,186 @@ Proof.
     assert (Eid : xs_id sec = ty) by congruence.
     pose proof (table_lookup c' news sec R2 R3 Ni Hsec) as T. rewrite Eid, Hsn, Hn in T. exact T.
 Qed.
+
+(* ================================================================================================ *)
+(* D. get_block and evaluate_labels on the re-read store                                             *)
+(* ================================================================================================ *)
+(* what write() needs of the store: ids unique and non-zero, extension rows well formed, trigger rows
+   (type, channel, delay, duration) with integer codes, label rows (integer value, label id) *)
+Definition file_ready (c : core) : Prop :=
+  xt_inv c /\ ext_wf (ext_l c) /\ ids_ok (ext_l c) /\ ids_ok (trig_l c) /\ ids_ok (lset_l c) /\ ids_ok (linc_l c) /\
+  trig_rows (trig_l c) /\ int_rows 2 (lset_l c) /\ int_rows 2 (linc_l c).
+
+Lemma In_aget_nodup {V} (l : list (Z * V)) id v : NoDup (akeys l) -> In (id, v) l -> aget Z.eqb l id = Some v.
+Proof.
+  induction l as [|[i w] r IH]; cbn; intros Nd H; [destruct H|]. inversion Nd as [|? ? Hn Hr]. subst.
+  destruct H as [H|H].
+  - inversion H. subst. rewrite Z.eqb_refl. reflexivity.
+  - destruct (i =? id) eqn:E; [|apply IH; assumption].
+    apply Z.eqb_eq in E. subst. exfalso. apply Hn. apply (in_map fst) in H. exact H.
+Qed.
+
+Lemma ext_rows_int (l : klib) : ext_wf l -> ids_ok l -> int_rows 3 l.
+Proof.
+  intros (_ & W1 & _) [Nd _]. unfold int_rows. apply Forall_forall. intros [id k] Hin. cbn [snd].
+  pose proof (In_aget_nodup _ _ _ Nd Hin) as G. destruct (W1 id k G) as (_ & ty & ref & nx & -> & _).
+  split; [reflexivity|]. unfold ext_row. repeat constructor; eexists; reflexivity.
+Qed.
+
+Lemma option_map_id {A} (o : option A) : option_map (fun k => k) o = o.
+Proof. destruct o; reflexivity. Qed.
+
+(* file_roundtrip_ext: reading what was written gives back the same extension rows, the same label rows,
+   the trigger rows with delay/duration in whole microseconds, and the same number <-> name mapping for every
+   extension kind that has events *)
+Theorem file_roundtrip_ext : forall c0 c, file_ready c -> ext_l c0 = lib_empty ->
+  exists c', reread_ext c0 c = Some c' /\
+    (forall id, lib_get (ext_l c') id = lib_get (ext_l c) id) /\
+    (forall id, lib_get (lset_l c') id = lib_get (lset_l c) id) /\
+    (forall id, lib_get (linc_l c') id = lib_get (linc_l c) id) /\
+    (forall id, lib_get (trig_l c') id = option_map file_trig_row (lib_get (trig_l c) id)) /\
+    (forall ty s, ext_type_str c ty = Some s -> lib_for c s = true -> ext_type_str c' ty = Some s) /\
+    xt_inv c'.
+Proof.
+  intros c0 c (X & W & Ie & It & Is & Ii & Rt & Rs & Ri) E0.
+  destruct (reread_ext_spec c0 c X) as (c' & R & Le & Lt & Ls & Li & Ty & N1 & N2 & N3).
+  destruct unit_tables as (U1 & U2 & U3).
+  exists c'. split; [exact R|]. split; [|split; [|split; [|split; [|split]]]].
+  - intro id. rewrite Le. destruct (nonempty (ext_l c)) eqn:B.
+    + rewrite (reread_unit_lib sec_ext (ext_l c) 3 U1 eq_refl (ext_rows_int _ W Ie)).
+      rewrite (rebuild_get _ _ _ Ie). apply option_map_id.
+    + rewrite E0. rewrite (empty_get _ id B). reflexivity.
+  - intro id. rewrite Ls, (reread_unit_lib sec_lset (lset_l c) 2 U2 eq_refl Rs), (rebuild_get _ _ _ Is).
+    apply option_map_id.
+  - intro id. rewrite Li, (reread_unit_lib sec_linc (linc_l c) 2 U3 eq_refl Ri), (rebuild_get _ _ _ Ii).
+    apply option_map_id.
+  - intro id. rewrite Lt, (reread_trig_lib _ Rt). apply rebuild_get. exact It.
+  - exact Ty.
+  - split; [exact N1|split; [exact N3|exact N2]].
+Qed.
+
+Lemma ext_list_ext (l l' : klib) : (forall id, lib_get l' id = lib_get l id) ->
+  forall f eid, ext_list l' f eid = ext_list l f eid.
+Proof.
+  intro H. induction f as [|f IH]; intro eid; rewrite !ext_list_unfold; [reflexivity|].
+  destruct (eid =? 0); [reflexivity|]. rewrite H. destruct (lib_get l eid); [|reflexivity]. rewrite IH. reflexivity.
+Qed.
+
+Lemma map_opt_map {A B} (f g : A -> option B) (h : B -> B) l :
+  (forall x y, f x = Some y -> g x = Some (h y)) ->
+  forall r, map_opt f l = Some r -> map_opt g l = Some (map h r).
+Proof.
+  intro M. induction l as [|x t IH]; cbn; intros r H; [inversion H; reflexivity|].
+  destruct (f x) as [y|] eqn:E; [|discriminate]. rewrite (M _ _ E).
+  destruct (map_opt f t) as [s|]; [|discriminate]. rewrite (IH s eq_refl). inversion H. reflexivity.
+Qed.
+
+Lemma get_nonempty (l : klib) id k : lib_get l id = Some k -> nonempty l = true.
+Proof. unfold lib_get, nonempty. destruct (ldata l); [discriminate|reflexivity]. Qed.
+
+(* get_block's chain walk on the re-read store returns the same entries, triggers in whole microseconds *)
+Theorem dec_ext_reread : forall c0 c c', file_ready c -> ext_l c0 = lib_empty -> reread_ext c0 c = Some c' ->
+  forall f eid r, dec_ext c f eid = Some r -> dec_ext c' f eid = Some (map file_payload r).
+Proof.
+  intros c0 c c' FR E0 R f eid r H.
+  destruct (file_roundtrip_ext c0 c FR E0) as (c'' & R' & Ge & Gs & Gi & Gt & Ty & _).
+  rewrite R in R'. inversion R'. subst c''. clear R'.
+  rewrite dec_ext_via_list in *. rewrite (ext_list_ext _ _ Ge).
+  destruct (ext_list (ext_l c) f eid) as [xs|]; [|discriminate].
+  apply (map_opt_map (ext_payload c) (ext_payload c') file_payload); [|exact H].
+  intros [ty ref] [s p] Hx. unfold ext_payload in *. cbn [fst snd] in *.
+  destruct (ext_type_str c ty) as [s'|] eqn:Es; [|discriminate].
+  unfold file_payload. cbn [fst snd].
+  destruct (s' =? XS_TRIGGERS) eqn:E1.
+  - destruct (lib_get (trig_l c) ref) as [q|] eqn:G; [|discriminate]. inversion Hx. subst s p.
+    rewrite (Ty ty s' Es); [|unfold lib_for; rewrite E1; exact (get_nonempty _ _ _ G)].
+    rewrite E1, Gt, G. reflexivity.
+  - destruct (s' =? XS_LABELSET) eqn:E2.
+    + destruct (lib_get (lset_l c) ref) as [q|] eqn:G; [|discriminate]. inversion Hx. subst s p.
+      rewrite (Ty ty s' Es); [|unfold lib_for; rewrite E1, E2; exact (get_nonempty _ _ _ G)].
+      rewrite E1, E2, Gs, G. reflexivity.
+    + destruct (s' =? XS_LABELINC) eqn:E3; [|discriminate].
+      destruct (lib_get (linc_l c) ref) as [q|] eqn:G; [|discriminate]. inversion Hx. subst s p.
+      rewrite (Ty ty s' Es); [|unfold lib_for; rewrite E1, E2, E3; exact (get_nonempty _ _ _ G)].
+      rewrite E1, E2, E3, Gi, G. reflexivity.
+Qed.
+
+Lemma labels_file_payload r : labels_of_ext (map file_payload r) = labels_of_ext r.
+Proof.
+  unfold labels_of_ext. f_equal. induction r as [|[s p] t IH]; [reflexivity|]. cbn [map filter_map].
+  rewrite IH. unfold file_payload, lop_of_ext. cbn [fst snd].
+  destruct (s =? XS_TRIGGERS) eqn:E; [|reflexivity]. apply Z.eqb_eq in E. subst s. reflexivity.
+Qed.
+
+Lemma trigs_file_payload r : trigs_of_ext (map file_payload r) = map file_trig_row (trigs_of_ext r).
+Proof.
+  unfold trigs_of_ext. induction r as [|[s p] t IH]; [reflexivity|]. cbn [map filter_map].
+  assert (Ef : fst (file_payload (s, p)) = s) by (unfold file_payload; cbn [fst]; destruct (s =? XS_TRIGGERS); reflexivity).
+  rewrite Ef. cbn [fst snd]. destruct (s =? XS_TRIGGERS) eqn:E.
+  - cbn [map]. rewrite IH. f_equal. unfold file_payload. cbn [fst snd]. rewrite E. reflexivity.
+  - exact IH.
+Qed.
+
+(* any successful walk also succeeds with the standard fuel *)
+Lemma dec_ext_std c f eid r :
+  dec_ext c f eid = Some r -> dec_ext c (S (length (ldata (ext_l c)))) eid = Some r.
+Proof.
+  intro H. pose proof (dec_ext_bound c c f eid r (core_le_refl c) H) as Hb.
+  eapply (dec_ext_mono c c (core_le_refl c)); [|apply (dec_ext_len c _ _ _ H)]. lia.
+Qed.
+
+(* the label program evaluate_labels runs over, read off the block table: labels of each block in
+   get_block order and whether the block has an ADC *)
+Definition row_lblock (c : core) (i : Z) : option lblock :=
+  match aget Z.eqb (blocks c) i, stored_ext c i with
+  | Some row, Some ext => Some (mkLBlock (labels_of_ext ext) (0 <? nth 5 row 0))
+  | _, _ => None
+  end.
+Definition table_lblocks (c : core) : option (list lblock) := map_opt (row_lblock c) (akeys (blocks c)).
+
+Lemma decode_row_lblock c i b : decode c i = Some b -> row_lblock c i = Some (lblock_of b).
+Proof.
+  intro H. unfold row_lblock. rewrite (decode_ext_is_stored c i b H).
+  unfold decode in H. destruct (aget Z.eqb (blocks c) i) as [ev|]; cbn [opt_bind] in H; [|discriminate].
+  destruct (dec_rf c (nth 1 ev 0)) as [rf|]; cbn [opt_bind] in H; [|discriminate].
+  destruct (dec_grad c (nth 2 ev 0)) as [gx|]; cbn [opt_bind] in H; [|discriminate].
+  destruct (dec_grad c (nth 3 ev 0)) as [gy|]; cbn [opt_bind] in H; [|discriminate].
+  destruct (dec_grad c (nth 4 ev 0)) as [gz|]; cbn [opt_bind] in H; [|discriminate].
+  destruct (dec_adc c (nth 5 ev 0)) as [adc|] eqn:Ea; cbn [opt_bind] in H; [|discriminate].
+  destruct (if 0 <? nth 6 ev 0 then dec_ext c (S (length (ldata (ext_l c)))) (nth 6 ev 0) else Some []) as [ext|];
+    cbn [opt_bind] in H; [|discriminate].
+  destruct (aget Z.eqb (durs c) i) as [d|]; cbn [opt_bind] in H; [|discriminate].
+  inversion H. subst b. unfold lblock_of. cbn [d_ext d_adc]. f_equal. f_equal.
+  unfold dec_adc in Ea. destruct (nth 5 ev 0 <=? 0) eqn:E.
+  - inversion Ea. apply Z.leb_le in E. destruct (0 <? nth 5 ev 0) eqn:L; [apply Z.ltb_lt in L; lia|reflexivity].
+  - destruct (lib_get (adc_l c) (nth 5 ev 0)); cbn [opt_bind] in Ea; [|discriminate]. inversion Ea.
+    apply Z.leb_gt in E. destruct (0 <? nth 5 ev 0) eqn:L; [reflexivity|apply Z.ltb_ge in L; lia].
+Qed.
+
+Theorem store_table_lblocks : forall c bs, store_lblocks c = Some bs -> table_lblocks c = Some bs.
+Proof.
+  intros c. unfold store_lblocks, table_lblocks. generalize (akeys (blocks c)) as ks.
+  induction ks as [|i r IH]; cbn [map_opt]; intros bs H; [exact H|].
+  destruct (decode c i) as [b|] eqn:D; cbn [option_map] in H; [|discriminate].
+  rewrite (decode_row_lblock c i b D).
+  destruct (map_opt (fun i0 => option_map lblock_of (decode c i0)) r) as [s|]; [|discriminate].
+  rewrite (IH s eq_refl). exact H.
+Qed.
+
+(* the same label program after write + read (the [BLOCKS] rows are integers and come back as they are:
+   C01): evaluate_labels of the re-read sequence sees exactly the blocks it saw before *)
+Theorem table_lblocks_reread : forall c0 c c' bs,
+  file_ready c -> ext_l c0 = lib_empty -> blocks c0 = blocks c -> reread_ext c0 c = Some c' ->
+  table_lblocks c = Some bs -> blocks c' = blocks c -> table_lblocks c' = Some bs.
+Proof.
+  intros c0 c c' bs FR E0 _ R H Eb. unfold table_lblocks in *. rewrite Eb.
+  revert bs H. generalize (akeys (blocks c)) as ks. induction ks as [|i r IH]; cbn [map_opt]; intros bs H; [exact H|].
+  destruct (row_lblock c i) as [b|] eqn:Rb; [|discriminate].
+  assert (Rb' : row_lblock c' i = Some b).
+  { unfold row_lblock, stored_ext in *. rewrite Eb. destruct (aget Z.eqb (blocks c) i) as [row|]; [|discriminate].
+    destruct (0 <? nth 6 row 0); [|exact Rb].
+    destruct (dec_ext c (S (length (ldata (ext_l c)))) (nth 6 row 0)) as [ext|] eqn:D; [|discriminate].
+    pose proof (dec_ext_reread c0 c c' FR E0 R _ _ _ D) as D'.
+    rewrite (dec_ext_std c' _ _ _ D'). rewrite labels_file_payload. exact Rb. }
+  rewrite Rb'. destruct (map_opt (row_lblock c) r) as [s|]; [|discriminate]. rewrite (IH s eq_refl). exact H.
+Qed.
